@@ -1598,7 +1598,7 @@ func c07Run(r *mon.Run) {
 		l := gen.DefaultLayout
 		if rng.IntN(4) == 0 {
 			l = gen.RandLayout(rng)
-			l.Comments, l.EmptyHash = 0, 0
+			l.Comments, l.EmptyHash, l.HashGlue = 0, 0, false
 		}
 		c07Run1(r, st, p, l, "random", i%4 == 0)
 		if i < 1 {
